@@ -129,7 +129,7 @@ def gen_numbers(ctx, exps):
         elif k == 2:
             fmt = r.choice(["1", "A", "a", "i", "I", "01", "&#x3b1;"])
             rv = round(v) if abs(v) < 1e300 else 0
-            known = "K9" if abs(v) >= 2.0 ** 64 and not neg else None
+            known = None
             exp_ = ("count", rv) if fmt == "1" and 0.5 <= v < 2.0 ** 63 else None
             out.append(Case("T", tmpl("<xsl:number value='%s' format='%s'/>" % (slit, fmt)), cls="num:xsl-number:" + ("big" if known else "ok"), expect=exp_, known=known))
         elif k == 3:
@@ -766,11 +766,11 @@ def replay_known(ctx, plain, asan):
 def run(ctx):
     ctx.assumptions += [
         "PARTIAL: Coq covers the enumerated mechanisms only (fixed buffers of the census, catch tables, cast guards); memory safety of all other code, stack depth and leaks are sampled under ASan+UBSan+LSan, not proved",
-        "exceptions outside the five caught families (std::exception family, xercesc::OutOfMemoryException) are not raised: they would leave transform() (uncaught_exception_classes; K19)",
+        "exceptions outside the five caught families (std::exception family, xercesc::OutOfMemoryException) are not raised: they would leave transform() (uncaught_exception_classes); template recursion is cut at eMaximumTemplateNestingDepth, genuine memory exhaustion by huge inputs remains outside the claim",
         "conflicts_bound: the patterns visited by findTemplate are pairwise distinct and at most m_patternCount (C10's model), priorities above the 'none' score",
         "integer conversions are instantiated with at most 64-bit scalar types; sprintf behaves as modelled in C18 (printf_fits)",
         "census keys identify a site by file, text and count; the enclosing guards of a cast beyond its own statement are audited by hand",
-        "sanitizer build: GCC -fsanitize=address,undefined (float-cast-overflow is not part of it: the K9 casts are observed through their results)",
+        "sanitizer build: GCC -fsanitize=address,undefined (float-cast-overflow is not part of it: the range guards in front of the casts are anchored by the translator and proved sufficient, cast_guarded_*)",
     ]
     for v in ("plain", "asan"):
         ok_lib, liblog = core.build_lib(v)
